@@ -51,9 +51,16 @@ func (m *C05) snap(w *chain.World, ctx sdk.Context) map[uint64]*poolSnap {
 		for _, a := range p.PoolAssets {
 			s.denoms = append(s.denoms, a.Token.Denom)
 			s.book = append(s.book, a.Token.Amount.BigInt())
-			ab := w.App.AccountedPoolKeeper.GetAccountedBalance(ctx, p.PoolId, a.Token.Denom)
-			if !p.PoolParams.UseOracle || !ab.IsPositive() {
-				ab = a.Token.Amount
+			// accounted balance = recorded reserve + what the perpetual positions owe the pool - what they
+			// hold of it, built from the current reserve and the accounted pool's non-amm part (not from
+			// the stored total, which is what the code under test has to keep fresh)
+			ab := a.Token.Amount
+			if ap, found := w.App.AccountedPoolKeeper.GetAccountedPool(ctx, p.PoolId); found && p.PoolParams.UseOracle {
+				for _, na := range ap.NonAmmPoolTokens {
+					if na.Denom == a.Token.Denom && ab.Add(na.Amount).IsPositive() {
+						ab = ab.Add(na.Amount)
+					}
+				}
 			}
 			s.acc = append(s.acc, ab.BigInt())
 			wv := a.Weight.Quo(math.NewInt(1 << 20)).Int64() // weights are stored scaled by 2^30
